@@ -73,16 +73,59 @@ class Result:
         }
 
 
-def build_group(hdir, target_dir, log_path, extra_args=()):
-    """Compile every harness of the group once (codegen only). Returns harness list."""
+SHARED_MODULES = ("lib", "util", "env")
+
+
+def _error_modules(txt):
+    """Compiler errors of a failed group build -> (harness modules they are located in, all in the harness crate?)."""
+    mods, foreign = set(), False
+    for blk in re.split(r"^(?=error(?:\[E\d+\])?:)", txt, flags=re.M):
+        if not blk.startswith("error") or blk.startswith("error: could not compile") or blk.startswith("error: Failed") or \
+                blk.startswith("error: aborting"):
+            continue
+        m = re.search(r"-->\s+(\S+?):\d+:\d+", blk)
+        if not m:
+            foreign = True
+            continue
+        path = m.group(1)
+        if path.startswith("src/"):
+            mods.add(path[4:].split("/")[0].rsplit(".rs", 1)[0])
+        else:
+            foreign = True
+    return mods, not foreign
+
+
+def build_group(hdir, target_dir, log_path, extra_args=(), skipped=None):
+    """Compile every harness of the group once (codegen only). Returns harness list.
+    Degraded build: when the ONLY compile errors are inside harness modules (a changed tree altered a signature one
+    harness family uses), those modules are dropped from the scratch copy of the harness crate and the rest of the
+    group is built and run; the dropped modules are reported through `skipped` {module: first error} and make the
+    check inconclusive (exit 2) unless another harness finds a violation."""
     cmd = ["cargo", "kani", "--target-dir", target_dir, "--only-codegen"] + list(extra_args)
     t0 = time.time()
-    with open(log_path, "w") as lf:
-        r = subprocess.run(cmd, cwd=hdir, env=_env(), stdout=lf, stderr=subprocess.STDOUT)
-    if r.returncode != 0:
+    for attempt in range(3):
+        with open(log_path, "w") as lf:
+            r = subprocess.run(cmd, cwd=hdir, env=_env(), stdout=lf, stderr=subprocess.STDOUT)
+        if r.returncode == 0:
+            break
         txt = open(log_path, errors="replace").read()
         errs = re.findall(r"^error(?:\[E\d+\])?:.*(?:\n(?!error|warning).*){0,14}", txt, re.M)
         tail = "\n".join(errs)[:3000] if errs else txt[-3000:]
+        mods, local = _error_modules(txt)
+        lib = os.path.join(hdir, "src", "lib.rs")
+        if skipped is not None and local and mods and not (mods & set(SHARED_MODULES)) and attempt < 2 and os.path.exists(lib):
+            src = open(lib).read()
+            for m in sorted(mods):
+                src2 = re.sub(r"(?m)^(?:#\[cfg\(kani\)\]\s*\n)?pub mod %s;[^\n]*\n" % re.escape(m), "", src)
+                if src2 == src:
+                    mods = None
+                    break
+                src = src2
+                skipped[m] = (errs[0].splitlines()[0] if errs else "does not compile")[:300]
+            if mods:
+                with open(lib, "w") as f:
+                    f.write(src)
+                continue
         raise Inconclusive("harness group %s does not build against the current tree "
                            "(cargo kani --only-codegen exit %d):\n%s"
                            % (os.path.basename(hdir), r.returncode, tail))
@@ -367,6 +410,8 @@ def native_replay(hdir, test_src, log_path, modules, timeout_s=600, release=Fals
         return False, False, "no test name in generated playback"
     lib = os.path.join(hdir, "src", "lib.rs")
     orig = open(lib).read()
+    # (a degraded build may have dropped harness modules from the scratch copy)
+    modules = [m for m in modules if re.search(r"\bmod %s\b" % re.escape(m), orig)]
     uses = "".join("    #[allow(unused_imports)] use crate::%s::*;\n" % m for m in modules)
     add = ("\n#[cfg(test)]\nmod verif_replay_gen {\n    #[allow(unused_imports)] use super::*;\n%s%s\n}\n"
            % (uses, test_src))
